@@ -125,70 +125,84 @@ func run(c *fw.Ctx) {
 		t := sut.Get(tn)
 		recs := families.MixedRecords(t, 6)
 		// make sure the first records have non-empty lists / non-null values so that features bite
-		sizes := []int{4, 2}
 		leaves := t.Schema().Leaves()
-		for codec := 0; codec <= 2; codec++ {
-			base, err := build(t, recs, sizes, codec, 0, 0, nil)
-			if err != nil {
-				panic(err)
+		// row-group layouts: two row groups; three with one that has no rows
+		// (legal, emitted by some writers) before the last
+		layouts := [][]int{{4, 2}, {3, 0, 3}}
+		if tn != "mini" && !c.Thorough() {
+			layouts = layouts[:1]
+		}
+		for li, sizes := range layouts {
+			lt := ""
+			if li > 0 {
+				lt = fmt.Sprintf("|layout%v", sizes)
 			}
-			if pf, err := refpq.ParseFile(base, refpq.ParseOptions{}); err != nil || len(pf.Problems) > 0 {
-				panic(fmt.Sprintf("C18 self-check: base file invalid: %v %v", err, pf))
-			}
-			if c.MineKey(fmt.Sprintf("%s|%d|base", tn, codec)) {
-				c.Eval()
-				c.Distinct(fmt.Sprintf("%s|%d|base", tn, codec))
-				if msg := judge(t, recs, base, true); msg != "" {
-					// not a C18 matter (that is C04's): but with the controls
-					// rejected, "every unsupported file is refused" is vacuous
-					c.Count("controls_not_accepted", 1)
-					c.Note("control: the valid base file %s codec %d is not read correctly (%s); C18's verdicts on this target are vacuous - see C04", tn, codec, classify(msg))
-				} else {
-					c.Count("controls_accepted", 1)
+			for codec := 0; codec <= 2; codec++ {
+				base, err := build(t, recs, sizes, codec, 0, 0, nil)
+				if err != nil {
+					panic(err)
 				}
-			}
-			for gi := range sizes {
-				for ci, leaf := range leaves {
-					for fi, ft := range feats {
-						if !ft.applies(leaf) {
-							continue
-						}
-						for page := 0; page < 2; page++ {
-							if ft.f.Kind == "codec" && page > 0 {
+				if pf, err := refpq.ParseFile(base, refpq.ParseOptions{AllowEmptyRowGroups: true}); err != nil || len(pf.Problems) > 0 {
+					panic(fmt.Sprintf("C18 self-check: base file invalid: %v %v", err, pf))
+				}
+				if c.MineKey(fmt.Sprintf("%s|%d|base%s", tn, codec, lt)) {
+					c.Eval()
+					c.Distinct(fmt.Sprintf("%s|%d|base%s", tn, codec, lt))
+					if msg := judge(t, recs, base, true); msg != "" {
+						// not a C18 matter (that is C04's): but with the controls
+						// rejected, "every unsupported file is refused" is vacuous
+						c.Count("controls_not_accepted", 1)
+						c.Note("control: the valid base file %s codec %d is not read correctly (%s); C18's verdicts on this target are vacuous - see C04", tn, codec, classify(msg))
+					} else {
+						c.Count("controls_accepted", 1)
+					}
+				}
+				for gi := range sizes {
+					if sizes[gi] == 0 {
+						continue // no page to carry a feature
+					}
+					for ci, leaf := range leaves {
+						for fi, ft := range feats {
+							if !ft.applies(leaf) {
 								continue
 							}
-							if !c.Mine() {
-								continue
-							}
-							f := ft.f
-							f.Page = page
-							uc := ucase{tn, refpq.RecsToJSON(t.Schema(), recs), sizes, codec, gi, ci, &f}
-							c.Eval()
-							c.Distinct(fmt.Sprintf("%s|%d|%d|%d|%d|%d", tn, codec, gi, ci, fi, page))
-							c.Guard("unsupported", uc)
-							file, err := build(t, recs, sizes, codec, gi, ci, &f)
-							if err != nil {
-								panic(err)
-							}
-							if c.WantSample() && c.Shard == 1 {
-								c.Sample(map[string]interface{}{"target": tn, "codec": codec, "rg": gi, "column": leaf.PathKey(), "feature": f})
-							}
-							if ft.accept {
-								// negative control (a BIT_PACKED label on a column without
-								// such levels is legal): whether the reader accepts it is
-								// C04's business, here it only shows that the refusals
-								// above are not blanket refusals
-								if msg := judge(t, recs, file, true); msg != "" {
-									c.Count("controls_not_accepted", 1)
-									c.Note("control: a BIT_PACKED level-encoding label on a column without such levels is not accepted (%s)", classify(msg))
-								} else {
-									c.Count("controls_accepted", 1)
+							for page := 0; page < 2; page++ {
+								if ft.f.Kind == "codec" && page > 0 {
+									continue
 								}
-								continue
-							}
-							if msg := judge(t, recs, file, ft.accept); msg != "" {
-								key := fmt.Sprintf("%s|%s:%d:genuine=%v|%s", columnClass(leaf), f.Kind, f.Arg, f.Genuine, classify(msg))
-								c.Violate(key, msg+fmt.Sprintf("\ntarget %s codec %d row group %d column %s page %d feature %+v", tn, codec, gi, leaf.PathKey(), page, f), "unsupported", uc)
+								if !c.Mine() {
+									continue
+								}
+								f := ft.f
+								f.Page = page
+								uc := ucase{tn, refpq.RecsToJSON(t.Schema(), recs), sizes, codec, gi, ci, &f}
+								c.Eval()
+								c.Distinct(fmt.Sprintf("%s|%d|%d|%d|%d|%d%s", tn, codec, gi, ci, fi, page, lt))
+								c.Guard("unsupported", uc)
+								file, err := build(t, recs, sizes, codec, gi, ci, &f)
+								if err != nil {
+									panic(err)
+								}
+								if c.WantSample() && c.Shard == 1 {
+									c.Sample(map[string]interface{}{"target": tn, "codec": codec, "rg": gi, "column": leaf.PathKey(), "feature": f})
+								}
+								if ft.accept {
+									// negative control (a BIT_PACKED label on a column without
+									// such levels is legal): whether the reader accepts it is
+									// C04's business, here it only shows that the refusals
+									// above are not blanket refusals
+									if msg := judge(t, recs, file, true); msg != "" {
+										c.Count("controls_not_accepted", 1)
+										c.Note("control: a BIT_PACKED level-encoding label on a column without such levels is not accepted (%s)", classify(msg))
+									} else {
+										c.Count("controls_accepted", 1)
+									}
+									continue
+								}
+								if msg := judge(t, recs, file, ft.accept); msg != "" {
+									key := fmt.Sprintf("%s|%s:%d:genuine=%v|%s", columnClass(leaf), f.Kind, f.Arg, f.Genuine, classify(msg))
+									c.Violate(key, msg+fmt.Sprintf("\ntarget %s codec %d row group %d column %s page %d feature %+v", tn, codec, gi, leaf.PathKey(), page, f), "unsupported", uc)
+								}
 							}
 						}
 					}
@@ -251,7 +265,7 @@ func Main() {
 	fw.Main(fw.Spec{
 		ID:    "C18",
 		Level: "exploration",
-		Rule: "valid foreign base files (mini, person [+document, flat3 in thorough]; 2 row groups, 2 pages per chunk; 3 codecs) in which one chunk, at every (row group, column, page position), carries one feature out of: dictionary page + PLAIN_DICTIONARY/RLE_DICTIONARY data page (genuinely encoded), index page, data page v2 (genuinely encoded), " +
+		Rule: "valid foreign base files (mini, person [+document, flat3 in thorough]; 2 row groups, and 3 row groups of which the middle one has no rows; 2 pages per chunk; 3 codecs) in which one chunk, at every (row group, column, page position), carries one feature out of: dictionary page + PLAIN_DICTIONARY/RLE_DICTIONARY data page (genuinely encoded), index page, data page v2 (genuinely encoded), " +
 			"value encoding in {PLAIN_DICTIONARY, RLE, BIT_PACKED, DELTA_BINARY_PACKED, DELTA_LENGTH_BYTE_ARRAY, DELTA_BYTE_ARRAY, RLE_DICTIONARY, BYTE_STREAM_SPLIT} (payload genuinely re-encoded where simple, and PLAIN bytes under the foreign label), BIT_PACKED definition/repetition levels on columns that have them (genuinely MSB-first packed), codec in {LZO, BROTLI, LZ4, ZSTD, LZ4_RAW}. " +
 			"Oracle: constructor error or Error() non-nil; never rows with nil error; no panic. Controls (counted in the evidence, not violations of this property): the base files and a BIT_PACKED level-encoding label on columns without such levels are read correctly",
 		Assumptions: []string{
